@@ -124,6 +124,24 @@ fn noise(v: &Value, tl: &mut Tally) {
     }
     let u = |k: &str| t[k].as_u64().unwrap() as usize;
     let label = t["kind"].as_str().unwrap().to_string();
+    if t["tiny"].as_bool() == Some(true) {
+        // GF(17): noise of magnitude >= p must be projected into the field by floor-mod (aggregate + noise modulo 17)
+        use prio::field::FieldV17;
+        let r = guarded(|| -> Result<(), String> {
+            let el = |x: i64| -> FieldV17 { let m = x.rem_euclid(17) as u32; FieldV17::from(m) };
+            let mut a: Vec<FieldV17> = agg.iter().map(|x| el(*x)).collect();
+            let mut tape = Tape::new(&symbols);
+            let ty = Histogram::<FieldV17, ParallelSum<FieldV17, Mul>>::new(u("len"), 2).unwrap();
+            if dp_verif::histogram(&ty, &strategy, &mut a, &mut tape).is_err() { return Err("add_noise returned an error".into()); }
+            if !tape.consumed_all() { return Err("tape not consumed exactly".into()); }
+            if a != expect.iter().map(|x| el(*x)).collect::<Vec<_>>() { return Err(format!("noised aggregate {:?} differs from aggregate + noise modulo 17", a)); }
+            Ok(())
+        });
+        if r != Ok(Ok(())) {
+            tl.mismatch(&format!("dp/noise/{label}/FieldV17"), json!({"case": v, "got": format!("{r:?}")}));
+        }
+        return;
+    }
     let r64 = guarded(|| match label.as_str() {
         "SumVec" => { let ty = SumVec::<Field64, ParallelSum<Field64, Mul>>::new((1u64 << u("bits")) - 1, u("len"), 2).unwrap(); run::<Field64>(&agg, &expect, &symbols, |a, r| dp_verif::sumvec(&ty, &strategy, a, r).is_ok()) }
         "Histogram" => { let ty = Histogram::<Field64, ParallelSum<Field64, Mul>>::new(u("len"), 2).unwrap(); run::<Field64>(&agg, &expect, &symbols, |a, r| dp_verif::histogram(&ty, &strategy, a, r).is_ok()) }
